@@ -88,6 +88,20 @@ func init() {
 	for _, w := range refmodel.ReservedWords {
 		res[w] = true
 	}
+	// names that only LOOK reserved: a reserved word with a letter more or less, the plural, a prefix, the dictionary
+	// spelling of the list's own misspellings (FLATTERN, LOGED, INNTER are the reserved words; FLATTEN and LOGGED are not)
+	for _, n := range []string{"flatten", "logged", "flattened", "logger", "statuses", "names", "datas", "sizes"} {
+		if !res[strings.ToUpper(n)] {
+			c16NonReserved = append(c16NonReserved, n)
+		}
+	}
+	for i, w := range refmodel.ReservedWords {
+		for _, n := range []string{strings.ToLower(w) + "s", strings.ToLower(w) + "_x", "my" + strings.ToLower(w), strings.ToLower(w[:len(w)-1])} {
+			if i%3 == len(n)%3 && len(n) > 1 && !res[strings.ToUpper(n)] {
+				c16NonReserved = append(c16NonReserved, n)
+			}
+		}
+	}
 	bases := []string{"color", "price", "qty", "sku", "title", "owner", "email", "flag", "score", "city", "zip", "lat", "lon", "tags", "notes", "created", "updated", "kind", "weight", "height"}
 	for _, b := range bases {
 		for i := 0; i < 10; i++ {
@@ -561,6 +575,32 @@ var c16Modes = []struct {
 func (p *c16) batchRules(x *res, ctx *runner.Ctx) {
 	for _, adapter := range adapt.Adapters {
 		specs := []adapt.TableSpec{mon.SpecHashOnly("tba16"), mon.SpecHashOnly("tbb16"), mon.SpecHashOnly("tbc16")}
+		// every table a batch names carries at least one request: a table entry with an empty request list makes the
+		// batch invalid, also next to tables that do have requests - and then nothing of it is applied
+		for _, nwrites := range []int{1, 3, 25} {
+			cl, _, _ := freshClient(adapter, specs...)
+			batch := []adapt.BatchEntry{}
+			for i := 0; i < nwrites; i++ {
+				batch = append(batch, adapt.BatchEntry{Table: specs[i%2].Name, Put: val.Item{"h": val.Str(fmt.Sprint("k", i))}})
+			}
+			op := adapt.Op{Kind: adapt.OpBatchWrite, Batch: batch, EmptyTables: []string{specs[2].Name}}
+			got := cl.Do(op)
+			x.r.Evals++
+			x.fp(true, "R6e|%s|%d", adapter, nwrites)
+			wit := map[string]interface{}{"adapter": adapter, "op": op, "outcome": got}
+			total := 0
+			for _, sp := range specs {
+				total += len(cl.Do(adapt.Op{Kind: adapt.OpScan, Table: sp.Name}).Items)
+			}
+			switch {
+			case got.Class == adapt.ClsRuntime:
+				x.viol("runtime-panic", got.Site, fmt.Sprintf("[%s] batch with an empty request list for one table: panic %s", adapter, got.Msg), wit)
+			case got.Class == adapt.ClsOK:
+				x.viol("malformed-write-request-accepted", "empty-request-list-for-a-table", fmt.Sprintf("[%s] batch of %d writes that also names table %s with an EMPTY request list is accepted (%d items written)", adapter, nwrites, specs[2].Name, total), wit)
+			case total != 0:
+				x.viol("rejected-batch-applied", "empty-request-list-for-a-table", fmt.Sprintf("[%s] rejected batch (empty request list for one table) wrote %d items", adapter, total), wit)
+			}
+		}
 		for _, mode := range c16Modes {
 			failing := strings.HasSuffix(mode.name, "-active")
 			for _, size := range []int{1, 13, 24, 25, 26, 27, 50, 100, 101} {
